@@ -207,7 +207,7 @@ func (b *builder) runWorker(prop, tier string, j job, trace bool, tape bool) out
 	if j.race {
 		bin = b.workerR
 	}
-	args := []string{"-prop", prop, "-tier", tier}
+	args := []string{"-prop", prop, "-tier", tier, "-sites", filepath.Join(b.scratch, "gen", "sites.json")}
 	var tmp string
 	if j.replay != nil {
 		tmp = b.tmpName("replay") + ".json"
